@@ -85,11 +85,10 @@ _LOOPS = ("Select", "Where", "SelectMany", "Aggregate", "Count", "Sum", "Min", "
 
 
 def _base(t):
-    """What a sequence expression ultimately iterates: the (collection, bank) or parameter at the bottom of
-    its chain of Select / Where / SelectMany steps (through a lambda applied on the spot: its body)."""
+    """What a sequence expression ultimately iterates: the parameter at the bottom of its chain of Select / Where /
+    SelectMany steps (through a lambda applied on the spot: its body).  Two separate e.Jets("A") calls are two
+    retrievals and two loops (correct on the unchanged tree); only ONE sequence value reached twice is the defect."""
     while True:
-        if t["k"] == "Coll":
-            return "Coll:%s/%s" % (t["a"], t["b"])
         if t["k"] == "Var":
             return "Var:" + t["a"]
         if t["k"] == "Let":
@@ -102,7 +101,7 @@ def _base(t):
 
 def feature_selfjoin(t):
     """A sequence operator whose body (or, for SelectMany, whose inner sequence) iterates the very
-    sequence it is already iterating: same parameter or same collection and bank at the bottom of both."""
+    sequence it is already iterating: the same parameter at the bottom of both."""
     for n in _subterms(t):
         if n["k"] in _LOOPS and n["ch"]:
             src = _base(n["ch"][0])
@@ -239,7 +238,23 @@ def build_cases(spec, tier, uni, rnd):
             prnd = random.Random(fixed)
             if sim:
                 sim = dict(sim, seed=fixed)
-        qs, r = pipeline.generate_queries(cfg, simulate=sim)
+        grafts = opts.pop("grafts", None)
+        if grafts:
+            # unsupported constructs grafted into the profile's queries (spec/Grafts.tla), those whose name starts with
+            # one of the given prefixes: every one must be refused
+            bases, r = pipeline.generate_queries(cfg, module="MCGrafts")
+            qs = []
+            seen_g = set()
+            for b in bases:
+                if b["support"] != "MUST_ACCEPT":
+                    continue
+                for g in b["grafts"]:
+                    gk = json.dumps(g["q"], sort_keys=True)
+                    if g["how"].startswith(tuple(grafts)) and gk not in seen_g:
+                        seen_g.add(gk)
+                        qs.append({"q": g["q"], "support": "MUST_REJECT", "how": g["how"]})
+        else:
+            qs, r = pipeline.generate_queries(cfg, simulate=sim)
         gen_states += r.distinct
         gen_trans += r.generated
         if own_cap and len(qs) > own_cap[tier]:
